@@ -103,8 +103,14 @@ def evaluate(name, checks, tier, budget, procs=0):
     try:
         rc, out = sh("git apply %s" % patch, cwd=wt)
         if rc != 0:
-            print("patch does not apply:", out)
-            sys.exit(2)
+            # /repo has moved on (a later "fix:" commit touched nearby lines): three-way merge, and the merged
+            # tree must still build
+            rc, out = sh("git apply -3 %s" % patch, cwd=wt)
+            if rc == 0:
+                rc, out = sh("go build ./...", cwd=wt)
+            if rc != 0:
+                print("patch does not apply:", out)
+                sys.exit(2)
         os.makedirs(outdir)
         for c in checks:
             t0 = time.time()
